@@ -67,7 +67,7 @@ ZoomsOKW(items, sizes, zooms) ==
   /\ \A k \in 1..Len(zooms) : /\ ZoomLevelOKW(items, sizes, zooms[k])
                               /\ \A i \in 1..Len(zooms[k].recs) : zooms[k].recs[i][1] \in Range(ChromsOf(items))
                               \* records are grouped by chromosome in file order
-                              /\ \A i \in 2..Len(zooms[k].recs) : zooms[k].recs[i-1][1] <= zooms[k].recs[i][1]
+                              /\ GroupedByChrom(zooms[k].recs)
 
 (* --------------------------- mechanism --------------------------------- *)
 \* sections: chunks of at most ips items per chromosome, in order
